@@ -2118,6 +2118,10 @@ class RepeatingEngine(Engine):
         def runRestart():
             # VV: The engine is restarting, it should be marked as `alive` till this function terminates
             self.lastExecution = True
+            # VV: Report that the engine is alive again right away: if submitting the task fails the engine is dead
+            # again before anything was emitted, observers of the state updates would then never see it leave and
+            # re-enter the "dead" state and the owning ComponentState would wait forever for a POSTMORTEM update.
+            self.emit_now()
 
             init_time = datetime.datetime.now()
             perfData = self._perfData_initialize(init_time, isNewOutput=True)
